@@ -13,7 +13,8 @@ COMMON_NOTE = ("Trusted: Coq 8.16.1 kernel (+vm_compute, no native_compute); axi
 CHECKS = {
     "C15": dict(
         text="Theorems over Model/TypeName.v (a transcription of Serialization._parse_type): accepted language = grammar language, tree = "
-             "grammar tree, every other string gives TypeNameError, for all lengths and depths. Correspondence: exhaustive over a 5-letter "
+             "grammar tree, every other string gives TypeNameError, for all lengths and depths; the same at the entry points that take a name (encode, decode, the lazy decode of a "
+             "loaded table: C15_entry_points_reject). Correspondence: every route on which the API parses a name, incl. AuxData.data of loaded tables; exhaustive over a 5-letter "
              "alphabet up to length 7 (quick) / 9 (thorough) plus random grammar strings and mutations, against the working tree; "
              "independent recursive-descent oracle.",
         design="5 C15", technique="Coq proof (induction on tokens/trees) + exhaustive-small-scope differential correspondence",
